@@ -206,6 +206,9 @@ def runner_fold(prog, repetitions, flags=None, seed=77):
     return r, events
 
 
+from cpv.build import AnalysisBroken as AnalysisBroken_
+
+
 def registry_fold(prog, tests, flags=(0, 0)):
     """Fold TestRegistry::runAllTests over a model list of tests. tests: list of (group, selected). flags:
     (runInSeperateProcess_, runIgnored_). Every UtestShell / TestResult method is a recording stub; every
@@ -270,3 +273,131 @@ def registry_reference(tests, flags=(0, 0)):
             out.append(("currentGroupEnded", i))
     out.append(("testsEnded",))
     return out
+
+
+def report_fold(prog, leaks, period=3, full=False):
+    """Fold MemoryLeakDetector::ConstructMemoryLeakReport over a scripted table walk. leaks: list of
+    (number, size, line, allocator name); full: what SimpleStringBuffer::reachedItsCapacity answers. The report
+    buffer's members are inlined, SimpleStringBuffer is a recording stub. Returns the event list:
+    ("first", period) ("next", leak index, period) ("limit", n) ("reset",) ("capacity?",) ("add", format, args) ("dump", memory, size)"""
+    from cpv.ceval import Evaluator, Unknown
+    from .common import string_hooks
+    DET, OSB, SSB = "MemoryLeakDetector", "MemoryLeakOutputStringBuffer", "SimpleStringBuffer"
+    cr = prog.fn(DET + "::ConstructMemoryLeakReport")
+    addr = [6000 + 100 * i for i in range(len(leaks))]
+    events = []
+    # (the report buffer still holds what an earlier report left: a total and a pending malloc warning)
+    env = {cr.params[0]["name"]: period, "outputBuffer_.total_leaks_": 5, "outputBuffer_.giveWarningOnUsingMalloc_": 1}
+    for a, (num, size, line, an) in zip(addr, leaks):
+        env.update({"@%d.number_" % a: num, "@%d.size_" % a: size, "@%d.file_" % a: ("str", "file%d.cpp" % num), "@%d.line_" % a: line,
+                    "@%d.allocator_" % a: 9000 + (1 if an == "malloc" else 0) + 10 * addr.index(a), "@%d.memory_" % a: 70000 + 1000 * addr.index(a)})
+    names = {9000 + (1 if an == "malloc" else 0) + 10 * i: an for i, (num, size, line, an) in enumerate(leaks)}
+
+    def text(ev_, v):
+        try:
+            return ev_.cstring(v)
+        except Unknown:
+            return v
+
+    def add(ev_, *a_):
+        vals = [text(ev_, x) if isinstance(x, tuple) else x for x in a_]
+        while vals and not isinstance(vals[0], str):
+            vals = vals[1:]             # (the receiver)
+        events.append(("add", vals[0] if vals else None, tuple(vals[1:])))
+        return 0
+    add.wants_ev = True
+
+    def strcmp(ev_, a_, b_):
+        x, y = ev_.cstring(a_), ev_.cstring(b_)
+        return (x > y) - (x < y)
+    strcmp.wants_ev = True
+    hooks = string_hooks({
+        "MemoryLeakDetectorTable::getFirstLeak": lambda *a_: (events.append(("first", a_[-1])), addr[0] if addr else 0)[1],
+        "MemoryLeakDetectorTable::getNextLeak": lambda *a_: (events.append(("next", addr.index(a_[-2]) if a_[-2] in addr else a_[-2], a_[-1])), (addr[addr.index(a_[-2]) + 1] if a_[-2] in addr and addr.index(a_[-2]) + 1 < len(addr) else 0))[1],
+        SSB + "::add": add, SSB + "::addMemoryDump": lambda *a_: (events.append(("dump",) + tuple(x for x in a_ if isinstance(x, int))), 0)[1],
+        SSB + "::setWriteLimit": lambda *a_: (events.append(("limit", a_[-1])), 0)[1], SSB + "::resetWriteLimit": lambda *a_: (events.append(("reset",)), 0)[1],
+        SSB + "::reachedItsCapacity": lambda *a_: (events.append(("capacity?",)), 1 if full else 0)[1],
+        "TestMemoryAllocator::alloc_name": lambda o, *a_: ("str", names[o]) if o in names else None,
+        "SimpleString::StrCmp": strcmp})
+    ev = Evaluator(prog, cr, env=env, calls=hooks)
+    ev.heap_mode = True
+    ev.pass_object = True
+    ev.inline = {g.qn for g in prog.functions.values() if g.qn.startswith((OSB + "::", DET + "::"))} - set(hooks)
+    ev.run_blocks(cr.entry, max_steps=6000)
+    return events
+
+
+def report_rules(prog, run, rid_total, rid_footer, LEN):
+    """the leak report folded over scripted table walks (shared by C04.R7 and C14.R2)"""
+    import re as _re
+    from cpv.ceval import Unknown
+    cr = prog.fn("MemoryLeakDetector::ConstructMemoryLeakReport")
+    run.analysed(cr)
+    for g in prog.functions.values():
+        if g.qn.startswith("MemoryLeakOutputStringBuffer::") and g.name in ("startMemoryLeakReporting", "reportMemoryLeak", "stopMemoryLeakReporting"):
+            run.analysed(g)
+    L = {"n": (7, 13, 55, "new"), "m": (8, 2, 9, "malloc"), "a": (9, 400, 1, "new []"), "N": (41, 1, 3, "new")}
+
+    def rendered(fmt, args):
+        out, i = 0, 0
+        for m in _re.finditer(r"%(?:l?[dus]|p|%)|[^%]+", fmt):
+            t = m.group(0)
+            if t == "%%":
+                out += 1
+            elif t.startswith("%"):
+                a = args[i] if i < len(args) else ""
+                i += 1
+                out += len(a) if isinstance(a, str) else 10
+            else:
+                out += len(t)
+        return out
+    worst = None
+    for pattern in ("", "n", "m", "nn", "nmN", "amn", "NNN"):
+        for full in (0, 1):
+            for period in (3, 1):
+                leaks = [L[c] for c in pattern]
+                k = len(leaks)
+                inst = "report folded over leaks [%s], buffer %s, period %d" % (", ".join(x[3] for x in leaks), "full" if full else "not full", period)
+                try:
+                    ev = report_fold(prog, leaks, period, full)
+                except Unknown as u:
+                    raise AnalysisBroken_("the leak report cannot be folded over %s: %s" % (pattern or "no leaks", u))
+                why = []
+                walk = [e for e in ev if e[0] in ("first", "next")]
+                if walk != [("first", period)] + [("next", i, period) for i in range(k)]:
+                    why.append("the table walk is %s, expected first(period) then next(leak, period) for each of the %d leaks" % (walk, k))
+                lim = [i for i, e in enumerate(ev) if e[0] == "limit"]
+                adds = [i for i, e in enumerate(ev) if e[0] == "add"]
+                if len(lim) != 1 or (adds and adds[0] < lim[0]):
+                    why.append("the write limit that reserves the footer is set %d times / after text was added" % len(lim))
+                ints = lambda e: tuple(x for x in e[2] if isinstance(x, int))
+                if k == 0:
+                    if len(adds) != 1 or ints(ev[adds[0]]):
+                        why.append("no leaks: expected the single no-leaks message, got %s" % [ev[i][1] for i in adds])
+                else:
+                    rs = [i for i, e in enumerate(ev) if e[0] == "reset"]
+                    cp = [i for i, e in enumerate(ev) if e[0] == "capacity?"]
+                    if len(rs) != 1 or len(cp) != 1 or cp[0] > rs[0]:
+                        why.append("the capacity must be sampled once before the limit is reset once (%s)" % [e[0] for e in ev if e[0] in ("capacity?", "reset")])
+                    else:
+                        before, after = [ev[i] for i in adds if i < rs[0]], [ev[i] for i in adds if i > rs[0]]
+                        for i_, (num, size, line, an) in enumerate(leaks):
+                            mem = 70000 + 1000 * i_
+                            mine = [e for e in before if mem in e[2]]
+                            if len(mine) != 1 or not {num, size, line, an, "file%d.cpp" % num} <= set(mine[0][2]):
+                                why.append("leak #%d (allocation %d, %d bytes, file%d.cpp:%d, %s) is reported %d times / with other values %s" % (i_, num, size, num, line, an, len(mine), [e[2] for e in mine][:1]))
+                            if ("dump", mem, size) not in ev:
+                                why.append("leak #%d: its content is not dumped with (memory, size)" % i_)
+                        foot = [e for e in after if ints(e)]
+                        if len(foot) != 1 or ints(foot[0]) != (k,):
+                            why.append("the total line states %s, %d leaks were walked" % ([ints(e) for e in foot], k))
+                        anym = any(x[3] == "malloc" for x in leaks)
+                        if len(after) != 1 + (1 if full else 0) + (1 if anym else 0):
+                            why.append("after the reset %d texts are added; expected the total line%s%s" % (len(after), ", the too-many notice" if full else "", ", the malloc warning" if anym else ""))
+                        if full and anym and isinstance(ev[lim[0]][1], int):
+                            need = sum(rendered(e[1], e[2]) for e in after)
+                            worst = (need, ev[lim[0]][1])
+                run.ob(rid_total, inst, cr.site, not why, witness=why or [e[0] if e[0] != "add" else "add:" + str(e[1])[:24] for e in ev][:40], what="; ".join(why))
+    ok = worst is not None and LEN - 1 - worst[1] >= worst[0] and 0 < worst[1] <= LEN - 1
+    run.ob(rid_footer, "reserved footer space covers too-many notice + total line + malloc warning (+ terminator)", cr.site, ok, witness={"write limit while leaks are listed": worst[1] if worst else None, "worst-case text added after the reset": worst[0] if worst else None, "buffer": LEN},
+           what="" if ok else "the footer can be truncated: the report would not state the total or the too-many notice")
